@@ -775,3 +775,25 @@ Fixpoint wf_reads (tr : list rd) : bool :=
            end
        end) && wf_reads tr'
   end.
+
+(* ------------------------------------------------------------------ *)
+(* 6. Why EvAttempt / EvExit are ONE event each.
+      RelayPool._check_idle()/_add_client() and _remove_client() test `len(self.pool) < pool_size`
+      (resp. `not self.pool`) and only later execute `self.pool.add(client)`; in between they call
+      add_client(), i.e. the client class's constructor.  [pstep] makes the check and the add one
+      event: this is the assumption "nothing between the size check and pool.add() yields to the hub"
+      (the harness verifies it on every run with a greenlet-switch counter).  If a constructor could
+      yield, the two halves would be separate events, as in this two-event cut of _check_idle: *)
+Inductive sevent : Type :=
+| SCheck      (* a caller finds no idle client and `len(pool) < pool_size`: it commits to add one *)
+| SAdd.       (* ... later: pool.add(client) *)
+
+Record sstate : Type := mkSS { s_pool : N; s_committed : N }.
+
+Definition sstep (size : N) (s : sstate) (e : sevent) : option sstate :=
+  match e with
+  | SCheck => Some (if s_pool s <? size then mkSS (s_pool s) (s_committed s + 1) else s)
+  | SAdd => if 0 <? s_committed s then Some (mkSS (s_pool s + 1) (s_committed s - 1)) else None
+  end.
+
+Definition split_sys (size : N) : sys := mkSys sstate sevent (mkSS 0 0) (sstep size).
